@@ -68,12 +68,25 @@ pub fn run(t: &mut Toks) -> String {
     if opts & 8 != 0 {
         hooks::trace_start();
     }
+    let mut panicked: Option<String> = None;
     if opts & 1 != 0 {
-        let v = match &mask {
+        let r = std::panic::catch_unwind(std::panic::AssertUnwindSafe(|| match &mask {
             Some(m) => Voronoi::build_partial(&gens, m, anchor, width, dim, periodic),
             None => Voronoi::build(&gens, anchor, width, dim, periodic),
-        };
-        out.push(format!("\"vor\":{}", voronoi_json(&v)));
+        }));
+        match r {
+            Ok(v) => out.push(format!("\"vor\":{}", voronoi_json(&v))),
+            Err(e) => {
+                let msg = if let Some(s) = e.downcast_ref::<&str>() {
+                    s.to_string()
+                } else if let Some(s) = e.downcast_ref::<String>() {
+                    s.clone()
+                } else {
+                    "panic".to_string()
+                };
+                panicked = Some(msg);
+            }
+        }
     }
     if opts & 8 != 0 {
         let tr = hooks::trace_take();
@@ -91,7 +104,18 @@ pub fn run(t: &mut Toks) -> String {
                 )
             })
             .collect();
-        out.push(format!("\"trace\":{{\"decisions\":{},\"exact\":{},\"exact_list\":[{}]}}", tr.len(), n_exact, exact.join(",")));
+        let mut exact_cells: Vec<usize> = tr.iter().filter(|d| d.exact_args.is_some()).map(|d| d.cell).collect();
+        exact_cells.sort();
+        exact_cells.dedup();
+        out.push(format!(
+            "\"trace\":{{\"decisions\":{},\"exact\":{},\"exact_cells\":{},\"exact_list\":[{}]}}",
+            tr.len(), n_exact, json::us(&exact_cells), exact.join(",")
+        ));
+    }
+    if let Some(msg) = panicked {
+        // report the panic together with the decisions taken so far (which cells used the exact predicate)
+        out.push(format!("\"panic\":{}", json::string(&msg)));
+        return out.join(",");
     }
     if opts & 2 != 0 {
         let integ = VoronoiIntegrator::build(&gens, mask.as_deref(), anchor, width, dim, periodic);
